@@ -8,8 +8,9 @@
 (*                                                                                                  *)
 (* Abstract layer (what the property statement demands): Authorised (token issued by this node to   *)
 (* the same address+key, at most one rotation ago), WithinLimits, Verifies, the monitors in `mon`,  *)
-(* NoDowngrade, LookupOK.  Implementation layer: the two-slot secret window, the per-key value list *)
-(* (newest first, entries whose id equals the key last), version-aware replacement, the clean-up.   *)
+(* NoDowngrade, the lookup operators (used by DhtLookup*.tla).                                      *)
+(* Implementation layer: the two-slot secret window, the per-key value list (newest first, entries  *)
+(* whose id equals the key last), version-aware replacement, the clean-up.                          *)
 (* One storage key is modelled (per-key lists are independent in Storage).                          *)
 EXTENDS Naturals, Integers, Sequences, FiniteSets, TLC, SequencesExt
 
@@ -71,7 +72,6 @@ IsOwn(v)    == v.s # None /\ v.s = OwnSigner
 (* kind "own": sha1(str(requester) + secret ep of this node); "foreign": issued by another node to the same   *)
 (* requester; "junk": 20 arbitrary bytes                                                                      *)
 Epoch == secrets[Len(secrets)]
-OwnTokens == issued
 Presentable(a, k) == {[a |-> t.a, k |-> t.k, ep |-> t.ep, kind |-> "own"] : t \in issued} \cup
                      {[a |-> a, k |-> k, ep |-> 0, kind |-> x] : x \in OtherTokens}
 
